@@ -624,7 +624,11 @@ impl DeriveShape for Expression {
                         if let Shape::TypeErr(_, _) = &shape {
                             // Don't update symbol table on type errors
                         } else {
-                            if let Shape::Hole(_) = &left_shape {
+                            // `env` is the process environment: which variables
+                            // it has is only known at build time, so one access
+                            // must not pin its fields for the next one.
+                            let is_process_env = pi.val.as_ref() == "env";
+                            if let (Shape::Hole(_), false) = (&left_shape, is_process_env) {
                                 let inferred = infer_container_shape_from_dot(
                                     &left_shape,
                                     &def.right,
